@@ -95,10 +95,10 @@ fn describe(spec: &[ModeSpec]) -> String {
 
 fn profile_for(suite: &str) -> Profile {
     match suite {
-        "C06" => Profile { next: 40, peek: 15, setmode: 15, curmode: 20, modename: 5, setoff_any: 5, ..Default::default() },
+        "C06" => Profile { next: 40, peek: 15, setmode: 15, curmode: 20, modename: 5, setoff_any: 5, withoff: 4, ..Default::default() },
         "C07" => Profile { next: 40, nextp: 5, peek: 10, adv_after_peek: 5, adv_any: 5, setoff_any: 10, setmode: 5, off: 5, run_out: 5, ..Default::default() },
         "C09" => Profile { next: 15, nextp: 35, setoff_back: 18, pos: 22, run_out: 6, setmode: 4, ..Default::default() },
-        "C10" => Profile { next: 40, peek: 15, adv_after_peek: 15, setoff_any: 20, setmode: 5, run_out: 5, ..Default::default() },
+        "C10" => Profile { next: 40, peek: 15, adv_after_peek: 15, setoff_any: 15, withoff: 8, setmode: 8, run_out: 5, ..Default::default() },
         "C11" => Profile { next: 35, peek: 40, setmode: 8, setoff_any: 7, curmode: 5, off: 5, ..Default::default() },
         _ => Profile { next: 50, peek: 10, setoff_any: 10, setmode: 5, curmode: 5, pos: 5, nextp: 10, run_out: 5, ..Default::default() },
     }
@@ -106,14 +106,220 @@ fn profile_for(suite: &str) -> Profile {
 
 /// find-level suite: model finder on the dump vs the real `find_from` at every boundary and the
 /// real token stream.
+/// C01: more than 128 character classes in one scanner (one single-character pattern each, built
+/// through `add_patterns`: token type = index); every character must be its own pattern's token.
+fn c01_many_classes(seed: u64, idx: usize, out: &mut String, st: &mut Stats) {
+    let mut r = Rng::derive(seed ^ 0x0c01_c1a5, idx as u64);
+    st.cases += 1;
+    let pool: Vec<char> = ('!'..='~').filter(|c| c.is_ascii_alphanumeric()).chain("äöüßéèêñçøåæœþðđłšžčřňťďľĺŕ".chars()).chain('α'..='ω').chain('а'..='я').collect();
+    let n = 129 + r.below(20);
+    let mut chars = pool.clone();
+    r.shuffle(&mut chars);
+    chars.truncate(n.min(chars.len()));
+    let pats: Vec<String> = chars.iter().map(|c| c.to_string()).collect();
+    let _ = writeln!(out, "case {}\nexpect case {}\n# {} single-character patterns through add_patterns", idx, idx, pats.len());
+    let built = catch_unwind(AssertUnwindSafe(|| ScannerBuilder::new().add_patterns(pats.clone()).build()));
+    let scanner = match built {
+        Ok(Ok(s)) => s,
+        Ok(Err(e)) => {
+            let _ = writeln!(out, "oracle FAIL {} single-character patterns are rejected: {}\nexpect oracle", pats.len(), e.to_string().replace('\n', " "));
+            return;
+        }
+        Err(_) => {
+            out.push_str("expect buildpanic\n");
+            return;
+        }
+    };
+    st.count("scanners_with_more_than_128_classes", 1);
+    // every pattern character, and some that are no pattern, in random order
+    let mut text: Vec<char> = chars.clone();
+    text.extend(['#', ' ', '\u{7f}', '€']);
+    r.shuffle(&mut text);
+    let input: String = text.iter().collect();
+    let real: Vec<(usize, usize, usize)> = match catch_unwind(AssertUnwindSafe(|| {
+        scanner.find_iter(&input).take(input.len() + 2).map(|m| (m.token_type(), m.start(), m.end())).collect::<Vec<_>>()
+    })) {
+        Ok(v) => v,
+        Err(_) => {
+            out.push_str("oracle FAIL scanning panicked\nexpect oracle\n");
+            return;
+        }
+    };
+    let mut exp = Vec::new();
+    let mut at = 0;
+    for c in &text {
+        if let Some(k) = chars.iter().position(|x| x == c) {
+            exp.push((k, at, at + c.len_utf8()));
+        }
+        at += c.len_utf8();
+    }
+    st.inputs += 1;
+    if real == exp {
+        out.push_str("oracle ok\nexpect oracle\n");
+    } else {
+        let k = real.iter().zip(exp.iter()).position(|(a, b)| a != b).unwrap_or(real.len().min(exp.len()));
+        let _ = writeln!(out, "oracle FAIL token #{}: {:?}; the longest-match rule prescribes {:?} (every character is the pattern with its index)\nexpect oracle", k, real.get(k), exp.get(k));
+    }
+}
+
+/// C01: inputs of more than 2^16 characters (words, numbers, blanks): the token stream is the
+/// concatenation of the tokens of the pieces.
+fn c01_long_input(seed: u64, idx: usize, out: &mut String, st: &mut Stats) {
+    let mut r = Rng::derive(seed ^ 0x0c01_1046, idx as u64);
+    st.cases += 1;
+    let _ = writeln!(out, "case {}\nexpect case {}\n# inputs around and beyond 65536 characters", idx, idx);
+    let pats = vec!["[a-z]+".to_string(), "[0-9]+".to_string(), " +".to_string()];
+    let scanner = match ScannerBuilder::new().add_patterns(pats).build() {
+        Ok(s) => s,
+        Err(_) => return,
+    };
+    for target in [65_530usize + r.below(12), 65_536, 131_072 + r.below(5), 20_000] {
+        // pieces: (text, token type); the piece kinds alternate so that pieces are whole tokens
+        let mut input = String::new();
+        let mut exp: Vec<(usize, usize, usize)> = Vec::new();
+        let mut kind = r.below(3);
+        // sometimes one very long word first
+        if r.chance(50) {
+            let n = target - r.below(40).min(target);
+            input.push_str(&"a".repeat(n));
+            exp.push((0, 0, n));
+            kind = 1 + r.below(2);
+        }
+        while input.len() < target + 12 {
+            let n = 1 + r.below(6);
+            let piece: String = match kind {
+                0 => (0..n).map(|_| (b'a' + r.below(26) as u8) as char).collect(),
+                1 => (0..n).map(|_| (b'0' + r.below(10) as u8) as char).collect(),
+                _ => " ".repeat(1 + r.below(2)),
+            };
+            exp.push((kind, input.len(), input.len() + piece.len()));
+            input.push_str(&piece);
+            let nk = r.below(2);
+            kind = (kind + 1 + nk) % 3;
+        }
+        st.inputs += 1;
+        let real: Vec<(usize, usize, usize)> = match catch_unwind(AssertUnwindSafe(|| {
+            scanner.find_iter(&input).take(input.len() + 2).map(|m| (m.token_type(), m.start(), m.end())).collect::<Vec<_>>()
+        })) {
+            Ok(v) => v,
+            Err(_) => {
+                out.push_str("oracle FAIL scanning a long input panicked\nexpect oracle\n");
+                continue;
+            }
+        };
+        if real == exp {
+            out.push_str("oracle ok\nexpect oracle\n");
+        } else {
+            let k = real.iter().zip(exp.iter()).position(|(a, b)| a != b).unwrap_or(real.len().min(exp.len()));
+            let _ = writeln!(out, "oracle FAIL input of {} characters (words, numbers, blanks): token #{} is {:?}; the longest-match rule prescribes {:?}\nexpect oracle", input.len(), k, real.get(k), exp.get(k));
+        }
+    }
+    st.count("inputs_longer_than_65535", 3);
+    // sweep: a token of a kind not seen before (and one seen long before) starting at every
+    // position around 2^16 and 2^17
+    let mut bad: Option<String> = None;
+    let mut swept = 0;
+    for base in [65_536usize, 131_072] {
+        for d in (base - 6)..=(base + 6) {
+            for head in ["", "12 "] {
+                let tail = " 12 ab 345 c";
+                let n = d - head.len();
+                let input = format!("{}{}{}", head, "a".repeat(n), tail);
+                let mut exp: Vec<(usize, usize, usize)> = Vec::new();
+                if !head.is_empty() {
+                    exp.push((1, 0, 2));
+                    exp.push((2, 2, 3));
+                }
+                exp.push((0, head.len(), d));
+                for (k, a, b) in [(2, 0, 1), (1, 1, 3), (2, 3, 4), (0, 4, 6), (2, 6, 7), (1, 7, 10), (2, 10, 11), (0, 11, 12)] {
+                    exp.push((k, d + a, d + b));
+                }
+                let real: Vec<(usize, usize, usize)> = match catch_unwind(AssertUnwindSafe(|| {
+                    scanner.find_iter(&input).take(40).map(|m| (m.token_type(), m.start(), m.end())).collect::<Vec<_>>()
+                })) {
+                    Ok(v) => v,
+                    Err(_) => vec![(usize::MAX, 0, 0)],
+                };
+                swept += 1;
+                if real != exp && bad.is_none() {
+                    let k = real.iter().zip(exp.iter()).position(|(a, b)| a != b).unwrap_or(real.len().min(exp.len()));
+                    bad = Some(format!("input {:?} + 'a' x {} + {:?}: token #{} is {:?}; the longest-match rule prescribes {:?}", head, n, tail, k, real.get(k), exp.get(k)));
+                }
+            }
+        }
+    }
+    st.inputs += swept;
+    match bad {
+        None => out.push_str("oracle ok\nexpect oracle\n"),
+        Some(b) => {
+            let _ = writeln!(out, "oracle FAIL {}\nexpect oracle", b);
+        }
+    }
+}
+
+/// C05: a mode with more than 64 patterns, two of them the same expression with different
+/// lookaheads at list positions that differ by a multiple of 64.
+fn c05_many_patterns(seed: u64, idx: usize, cache: &TableCache, rcache: &RefCache, out: &mut String, st: &mut Stats) {
+    let mut r = Rng::derive(seed ^ 0x0c05_6464, idx as u64);
+    let n = 66 + r.below(70);
+    let first = r.below(3);
+    let mut patterns: Vec<PatSpec> = Vec::new();
+    let letters = ['c', 'd', 'e', 'x', 'y', 'z', 'q', 'w'];
+    let mut used = std::collections::BTreeSet::new();
+    for k in 0..n {
+        let mut w: String;
+        loop {
+            w = (0..(2 + r.below(2))).map(|_| *r.pick(&letters)).collect();
+            if used.insert(w.clone()) {
+                break;
+            }
+        }
+        patterns.push(PatSpec { pattern: w, tid: k, lookahead: None });
+    }
+    let las = ["c", "cde", "x", "cd", "c[a-z]*"];
+    let mut k = first;
+    let mut j = 0;
+    while k < n {
+        patterns[k] = PatSpec { pattern: "ab".into(), tid: k, lookahead: Some((r.chance(85), las[j % las.len()].to_string())) };
+        j += 1;
+        k += 64;
+    }
+    patterns.push(PatSpec { pattern: "[a-z]".into(), tid: n, lookahead: None });
+    patterns.push(PatSpec { pattern: " ".into(), tid: n + 1, lookahead: None });
+    let spec = vec![ModeSpec { name: "MANY".into(), patterns, transitions: vec![] }];
+    st.count("modes_with_more_than_64_patterns", 1);
+    let extra = vec!["abcde abx abc".to_string(), "abcd ab abcde".to_string(), "abq abcxyz".to_string()];
+    case_find_with(seed, idx, "C05", Some((spec, extra)), cache, rcache, out, st);
+}
+
 fn case_find(seed: u64, idx: usize, suite: &str, cache: &TableCache, rcache: &RefCache, out: &mut String, st: &mut Stats) {
+    case_find_with(seed, idx, suite, None, cache, rcache, out, st);
+}
+
+fn case_find_with(seed: u64, idx: usize, suite: &str, preset: Option<(Vec<ModeSpec>, Vec<String>)>, cache: &TableCache, rcache: &RefCache, out: &mut String, st: &mut Stats) {
+    if preset.is_none() && suite == "C01" && idx % 40 == 7 {
+        return c01_many_classes(seed, idx, out, st);
+    }
+    if preset.is_none() && suite == "C01" && idx % 60 == 11 {
+        return c01_long_input(seed, idx, out, st);
+    }
+    if preset.is_none() && suite == "C05" && idx % 25 == 3 {
+        return c05_many_patterns(seed, idx, cache, rcache, out, st);
+    }
+    let (preset_spec, preset_inputs) = match preset {
+        Some((a, b)) => (Some(a), b),
+        None => (None, vec![]),
+    };
     let mut r = Rng::derive(seed, idx as u64);
     let pc = match suite {
         "C01" => ProgCfg { max_modes: 1, max_patterns: 6, lookahead: 0, nullable: true, transitions: false, big_tids: true },
         "C04" | "C05" => ProgCfg { max_modes: 1, max_patterns: 5, lookahead: 55, nullable: true, transitions: false, big_tids: false },
         _ => ProgCfg { max_modes: 2, max_patterns: 5, lookahead: 30, nullable: true, transitions: true, big_tids: true },
     };
-    let mut spec = cfggen::gen_program(&mut r, &pc);
+    let mut spec = match preset_spec {
+        Some(s) => s,
+        None => cfggen::gen_program(&mut r, &pc),
+    };
     // C01: a third of the programs goes through `add_patterns` (token type = pattern index)
     let via_add_patterns = suite == "C01" && r.chance(33);
     if via_add_patterns {
@@ -129,6 +335,19 @@ fn case_find(seed: u64, idx: usize, suite: &str, cache: &TableCache, rcache: &Re
     // configuration with the same pattern texts and other token types (or another order)
     let mut r2 = Rng::derive(seed ^ 0x0c01_51b1, idx as u64);
     let sibling = suite == "C01" && r2.chance(35);
+    // C04, C05: half of the scanners are built from modes that went through a JSON round trip
+    let via_json = (suite == "C04" || suite == "C05") && r2.chance(50);
+    let modes = if via_json {
+        match serde_json::to_string(&modes).ok().and_then(|t| serde_json::from_str::<Vec<scnr::ScannerMode>>(&t).ok()) {
+            Some(m) => {
+                st.count("built_from_modes_after_a_json_round_trip", 1);
+                m
+            }
+            None => modes,
+        }
+    } else {
+        modes
+    };
     let built = catch_unwind(AssertUnwindSafe(|| {
         if sibling {
             let mut sib = spec.clone();
@@ -210,11 +429,33 @@ fn case_find(seed: u64, idx: usize, suite: &str, cache: &TableCache, rcache: &Re
             st.count("built_via_add_patterns", 1);
         }
     }
+    if (suite == "C04" || suite == "C05") && idx % 4 == 0 {
+        // the lookahead automata (and the mode automaton) of the dump are those of the configured
+        // expressions: C02's verified check on the same dump (hypothesis of the pattern-level reading
+        // of the trailing-context verdict)
+        let mut pl = String::new();
+        if write_patterns(&mut pl, &spec, rcache) {
+            head.push_str(&pl);
+            for (m, mode) in dump.modes.iter().enumerate() {
+                let _ = writeln!(head, "equiv {}", m);
+                head.push_str("expect equiv ok\n");
+                for (tid, _, _) in &mode.dfa.lookaheads {
+                    let _ = writeln!(head, "equivla {} {}", m, tid);
+                    head.push_str("expect equiv ok\n");
+                    st.count("lookahead_automata_checked_against_patterns", 1);
+                }
+            }
+        } else {
+            st.count("reference_unavailable", 1);
+        }
+    }
     out.push_str(&head);
     out.push_str("finder model\n");
-    let n_inputs = 6;
-    for _ in 0..n_inputs {
-        let input = cfggen::gen_input(&mut r, &dump, &tables, 6);
+    let n_inputs = 6 + preset_inputs.len();
+    for i_in in 0..n_inputs {
+        let input = if i_in >= 6 { preset_inputs[i_in - 6].clone() } else { cfggen::gen_input(&mut r, &dump, &tables, 6) };
+        let mut rx = Rng::derive(seed ^ 0xe0e0_71c5, (idx * 13 + input.len()) as u64);
+        let input = if rx.chance(25) { cfggen::sprinkle_exotic(&mut rx, &input) } else { input };
         st.inputs += 1;
         let _ = writeln!(out, "input{}", proto::cps(&input));
         for m in 0..dump.modes.len() {
@@ -233,6 +474,14 @@ fn case_find(seed: u64, idx: usize, suite: &str, cache: &TableCache, rcache: &Re
         // fused: one more next
         let p = Profile { next: 1, ..Default::default() };
         h.step(&mut r, &p, out);
+        // the same iterator once more after it reached the end (an over-long peek, then from 0)
+        if !h.dead && idx % 2 == 1 {
+            let p = Profile { peek: 1, ..Default::default() };
+            h.step(&mut r, &p, out);
+            h.set_offset_to(0, out);
+            let p = Profile { run_out: 1, ..Default::default() };
+            h.step(&mut r, &p, out);
+        }
         if st.samples.len() < 3 {
             st.samples.push(format!("{} input {:?}", describe(&spec), input));
         }
@@ -256,13 +505,81 @@ fn case_iter(seed: u64, idx: usize, suite: &str, cache: &TableCache, out: &mut S
             }
         }
     }
-    let modes = cfggen::to_modes(&spec);
+    // C06, C07: two modes with the same name (modes are addressed by index)
+    let mut r7 = Rng::derive(seed ^ 0x0c07_dd07, idx as u64);
+    if (suite == "C06" || suite == "C07") && spec.len() >= 2 && r7.chance(20) {
+        let a = r7.below(spec.len());
+        let b = (a + 1 + r7.below(spec.len() - 1)) % spec.len();
+        spec[b].name = spec[a].name.clone();
+        st.count("two_modes_with_one_name", 1);
+    }
+    // C06, C11: large token types (64 and above) with transitions on them
+    let mut r5 = Rng::derive(seed ^ 0x0c11_6464, idx as u64);
+    if (suite == "C06" || suite == "C11") && r5.chance(30) {
+        let off = *r5.pick(&[64usize, 63, 1000, 4096, 70000]);
+        for m in spec.iter_mut() {
+            for p in m.patterns.iter_mut() {
+                p.tid += off;
+            }
+            for t in m.transitions.iter_mut() {
+                t.0 += off;
+            }
+        }
+        st.count("token_types_shifted_above_63", 1);
+    }
+    // C06: modes with the same pattern list and different transitions
+    let mut r4 = Rng::derive(seed ^ 0x0c06_7117, idx as u64);
+    if suite == "C06" && spec.len() >= 2 && r4.chance(30) {
+        let a = r4.below(spec.len());
+        let b = (a + 1 + r4.below(spec.len() - 1)) % spec.len();
+        spec[b].patterns = spec[a].patterns.clone();
+        let n = spec.len();
+        let mut tr: Vec<(usize, usize)> = Vec::new();
+        let mut tids: Vec<usize> = spec[b].patterns.iter().map(|p| p.tid).collect();
+        tids.sort();
+        tids.dedup();
+        for t in tids {
+            if r4.chance(60) {
+                tr.push((t, r4.below(n)));
+            }
+        }
+        if tr == spec[a].transitions {
+            tr.clear();
+        }
+        spec[b].transitions = tr;
+        st.count("twin_modes_same_patterns_other_transitions", 1);
+    }
+    // C06, C11: transition tables as the deserializer accepts them (unsorted, duplicate token types):
+    // the scanner is then built from modes read through serde
+    let mut r9 = Rng::derive(seed ^ 0x0c11_5e7d, idx as u64);
+    let via_serde = (suite == "C06" || suite == "C11") && r9.chance(20);
+    if via_serde {
+        let nm = spec.len();
+        for m in spec.iter_mut() {
+            if m.transitions.len() >= 2 && r9.chance(70) {
+                r9.shuffle(&mut m.transitions);
+            }
+            if !m.transitions.is_empty() && r9.chance(30) {
+                let t = m.transitions[r9.below(m.transitions.len())];
+                m.transitions.push((t.0, r9.below(nm)));
+            }
+        }
+        st.count("transition_tables_through_serde_unsorted_or_duplicate", 1);
+    }
+    let modes = if via_serde {
+        match cfggen::to_modes_json(&spec) {
+            Some(m) => m,
+            None => return,
+        }
+    } else {
+        cfggen::to_modes(&spec)
+    };
     st.cases += 1;
     // C06: half of the scanners come from the cached `build`, after a sibling configuration (same
     // names and patterns, other transitions) went through the cache first: the transitions that
     // count are those of the configuration the scanner was built from
     let mut r2 = Rng::derive(seed ^ 0x5151_c06c, idx as u64);
-    let cached = suite == "C06" && r2.chance(50);
+    let cached = suite == "C06" && r2.chance(50) && !via_serde;
     let built = catch_unwind(AssertUnwindSafe(|| {
         if cached {
             let mut sib = spec.clone();
@@ -345,6 +662,32 @@ fn case_iter(seed: u64, idx: usize, suite: &str, cache: &TableCache, out: &mut S
             }
             input = t;
         }
+        if suite == "C09" {
+            // runs of line breaks (tokens with several interior line breaks)
+            let mut r6 = Rng::derive(seed ^ 0x0c09_9009, (idx * 7 + input.len()) as u64);
+            if r6.chance(40) {
+                let cs: Vec<char> = input.chars().collect();
+                let at = r6.below(cs.len() + 1);
+                let run: String = "\n".repeat(2 + r6.below(3));
+                input = cs[..at].iter().collect::<String>() + &run + &cs[at..].iter().collect::<String>();
+            }
+        }
+        let mut rx = Rng::derive(seed ^ 0xe0e0_17e2, (idx * 11 + input.len()) as u64);
+        if rx.chance(25) {
+            input = cfggen::sprinkle_exotic(&mut rx, &input);
+        }
+        // C09: now and then an input of 35 to 80 lines
+        let many_lines = suite == "C09" && rx.chance(12);
+        if many_lines {
+            let lines = 35 + rx.below(46);
+            let mut t = String::new();
+            for _ in 0..lines {
+                t.push_str(&cfggen::gen_input(&mut rx, &dump, &tables, 2).replace('\n', " "));
+                t.push('\n');
+            }
+            input = t;
+            st.count("inputs_of_35_and_more_lines", 1);
+        }
         st.inputs += 1;
         let _ = writeln!(out, "input{}", proto::cps(&input));
         for m in 0..dump.modes.len() {
@@ -364,13 +707,32 @@ fn case_iter(seed: u64, idx: usize, suite: &str, cache: &TableCache, out: &mut S
         }
         out.push_str("new 0\n");
         let mut h = History::new(&scanner, &input, 0, dump.modes.len());
-        let n_ops = if suite == "C09" { r.range(8, 40) } else { r.range(4, 25) };
+        let n_ops = if many_lines { r.range(150, 300) } else if suite == "C09" { r.range(8, 40) } else { r.range(4, 25) };
         for _ in 0..n_ops {
             if h.dead {
                 break;
             }
             let name = h.step(&mut r, &profile, out);
             *st.ops.entry(name.to_string()).or_default() += 1;
+        }
+        if suite == "C09" || suite == "C07" {
+            // the real `with_positions()` adapter on a fresh iterator of the same scanner
+            use scnr::MatchExtIterator;
+            out.push_str("new 1\n");
+            let toks = catch_unwind(AssertUnwindSafe(|| {
+                scanner.find_iter(&input).with_positions().take(input.len() + 2).collect::<Vec<scnr::MatchExt>>()
+            }));
+            match toks {
+                Err(_) => out.push_str("nextp 1\nexpect panic\n"),
+                Ok(v) => {
+                    for me in &v {
+                        let _ = writeln!(out, "nextp 1\nexpect tokp {} {} {} {} {} {} {}", me.token_type(), me.start(), me.end(),
+                            me.start_position().line, me.start_position().column, me.end_position().line, me.end_position().column);
+                    }
+                    out.push_str("nextp 1\nexpect none\n");
+                    *st.ops.entry("with_positions_adapter_tokens".to_string()).or_default() += v.len();
+                }
+            }
         }
         if st.samples.len() < 3 {
             st.samples.push(format!("{} input {:?}", desc, input));
@@ -684,6 +1046,67 @@ fn case_c03(seed: u64, idx: usize, cache: &TableCache, out: &mut String, st: &mu
             st.count("token_types_congruent_mod_2^k", 1);
         }
     }
+    // several patterns of a mode with one token type; a pattern that matches only the empty string
+    if r2.chance(25) {
+        let m = r2.below(spec.len());
+        let n = spec[m].patterns.len();
+        if n >= 2 && r2.chance(70) {
+            let t = spec[m].patterns[r2.below(n)].tid;
+            let k = r2.below(n);
+            spec[m].patterns[k].tid = t;
+            if n >= 3 && r2.chance(50) {
+                let k2 = r2.below(n);
+                spec[m].patterns[k2].tid = t;
+            }
+            st.count("modes_with_a_shared_token_type", 1);
+        }
+        if r2.chance(40) {
+            let k = r2.below(n);
+            spec[m].patterns[k].pattern = r2.pick(&["", "()", "a{0}", "(a{0,0}|)"]).to_string();
+            st.count("patterns_matching_only_the_empty_string", 1);
+        }
+        if r2.chance(40) {
+            let k = r2.below(n);
+            let c = *r2.pick(&['a', 'b', 'c']);
+            spec[m].patterns[k].pattern = format!("{}{}{}{}", r2.pick(&['b', 'c', 'd']), c, c, c);
+        }
+    }
+    // spare terminal ids (shared token type / empty-only pattern) together with a run of one
+    // character (needs a second refinement round)
+    if r2.chance(12) {
+        let l = ['a', 'b', 'c', 'd', 'e'];
+        let a = *r2.pick(&l);
+        let others: Vec<char> = l.iter().cloned().filter(|c| *c != a).collect();
+        let run = |n: usize| -> String { std::iter::repeat(a).take(n).collect() };
+        let k = 2 + r2.below(3);
+        let pats: Vec<(String, usize)> = match r2.below(4) {
+            0 => vec![(format!("{}{}", others[0], run(k)), 7), (others[1].to_string(), 7), (others[2].to_string(), 7)],
+            1 => vec![(run(k), 0), (String::new(), 1)],
+            2 => vec![(run(k + 1), 0), ("()".to_string(), 1), (others[0].to_string(), 2)],
+            _ => vec![(format!("{}{}", others[0], run(k)), 3), (others[1].to_string(), 3), (format!("{}{}", others[2], run(2)), 3), (others[3].to_string(), 5)],
+        };
+        let m = r2.below(spec.len());
+        spec[m].patterns = pats.into_iter().map(|(p, t)| PatSpec { pattern: p, tid: t, lookahead: None }).collect();
+        spec[m].transitions.clear();
+        st.count("spare_terminal_id_templates", 1);
+    }
+    // accepting states of one token type whose continuations differ only late; a dead-end
+    // accepting state numbered before one that continues
+    if r2.chance(25) {
+        let l = ['a', 'b', 'c', 'd', 'e', 'f'];
+        let (a, b, c, d, e, f) = (*r2.pick(&l), *r2.pick(&l), *r2.pick(&l), *r2.pick(&l), *r2.pick(&l), *r2.pick(&l));
+        let text = match r2.below(5) {
+            0 => format!("{a}({b}{c}{d})?|{e}({b}{c}{f})?"),
+            1 => format!("{a}[0-9]+(_{b}{c})?|{d}[0-9]+(_{b}{e})?"),
+            2 => format!("{a}|[{b}-{c}{d}][0-9]*"),
+            3 => format!("{a}({b}{c}{d}{e})?|{f}({b}{c}{d}{a})?"),
+            _ => format!("=|(<|>)=?|{a}|{b}{a}?"),
+        };
+        let m = r2.below(spec.len());
+        let k = r2.below(spec[m].patterns.len());
+        spec[m].patterns[k].pattern = text;
+        st.count("late_difference_templates", 1);
+    }
     c03_case(idx, &spec, cache, out, st);
 }
 
@@ -804,6 +1227,25 @@ fn shared_class_case(seed: u64, idx: usize, rcache: &RefCache, out: &mut String,
     let d = scanner.verif_dump();
     let _ = writeln!(out, "case {}\nexpect case {}\n# classes in one scanner: {}", idx, idx, desc);
     out.push_str("scanner\n");
+    // membership must not depend on what was asked before: all classes of the scanner are
+    // evaluated character by character in an order that puts code points with equal low 16 bits
+    // next to each other (U+0041, U+10041, ..., U+100041), and the answers are compared with the
+    // plain ascending enumeration of each class below
+    let n_cls = d.classes.len();
+    let mut inter: Vec<Vec<u8>> = vec![vec![0u8; 0x110000 / 8 + 1]; n_cls];
+    for low in 0u32..=0xFFFF {
+        for plane in 0u32..=0x10 {
+            let cp = (plane << 16) | low;
+            if let Some(c) = char::from_u32(cp) {
+                for id in 0..n_cls {
+                    let m = catch_unwind(AssertUnwindSafe(|| scanner.verif_class_matches(id, c))).unwrap_or(false);
+                    if m {
+                        inter[id][(cp / 8) as usize] |= 1 << (cp % 8);
+                    }
+                }
+            }
+        }
+    }
     let mut tables: std::collections::HashMap<usize, Vec<(u32, u32)>> = std::collections::HashMap::new();
     for (i, t) in texts.iter().enumerate() {
         let Some(alone) = rcache.class_leaf(t) else {
@@ -817,6 +1259,21 @@ fn shared_class_case(seed: u64, idx: usize, rcache: &RefCache, out: &mut String,
         }
         let cc = start[0].0;
         let real = tables.entry(cc).or_insert_with(|| proto::class_table(&scanner, cc));
+        // order independence: the table as a bitmap against the bitmap of the interleaved pass
+        let mut bm: Vec<u8> = vec![0u8; 0x110000 / 8 + 1];
+        for (lo, hi) in real.iter() {
+            for cp in *lo..=*hi {
+                bm[(cp / 8) as usize] |= 1 << (cp % 8);
+            }
+        }
+        let order_diff: Option<u32> = bm.iter().zip(inter[cc].iter()).position(|(x, y)| x != y).map(|byte| {
+            let x = bm[byte] ^ inter[cc][byte];
+            (byte as u32) * 8 + x.trailing_zeros()
+        });
+        if let Some(cp) = order_diff {
+            let _ = writeln!(out, "oracle FAIL membership of U+{:04X} in class {} depends on the order in which characters and classes are evaluated\nexpect oracle", cp, t.escape_default());
+            continue;
+        }
         if *real == *alone {
             out.push_str("oracle ok\nexpect oracle\n");
         } else {
@@ -982,7 +1439,16 @@ fn case_c12(seed: u64, idx: usize, cache: &TableCache, out: &mut String, st: &mu
     let sc_a = ScannerBuilder::new().add_scanner_modes(&cfggen::to_modes(&a)).build_uncached().unwrap();
     let dump_a = sc_a.verif_dump();
     let tables_a = cache.tables(&sc_a, &dump_a);
-    let inputs: Vec<String> = (0..3).map(|_| cfggen::gen_input(&mut r, &dump_a, &tables_a, 7)).collect();
+    let mut inputs: Vec<String> = (0..3).map(|_| cfggen::gen_input(&mut r, &dump_a, &tables_a, 7)).collect();
+    // code points whose low 16 / 20 bits or low byte alias the letters of the alphabet, next to them
+    let mut rx = Rng::derive(seed ^ 0x0c12_e0e0, idx as u64);
+    if rx.chance(40) {
+        for i in 0..inputs.len() {
+            if rx.chance(60) {
+                inputs[i] = cfggen::sprinkle_exotic(&mut rx, &inputs[i]);
+            }
+        }
+    }
     st.inputs += inputs.len();
     let n_modes = a.len().min(b.len());
     let mut ops: Vec<WOp> = vec![
@@ -1169,6 +1635,35 @@ fn mutate_cfg(r: &mut Rng, base: &[ModeSpec]) -> Vec<ModeSpec> {
     c
 }
 
+/// Observable behaviour of a scanner on an input: mode names, and per start mode the token stream
+/// (with the mode after every token) and a preview.
+fn behaviour_of(sc: &scnr::Scanner, input: &str, n_modes: usize) -> String {
+    use scnr::ScannerModeSwitcher;
+    match catch_unwind(AssertUnwindSafe(|| {
+        let mut o = String::new();
+        for m in 0..n_modes + 1 {
+            let _ = write!(o, "name{}={:?};", m, sc.mode_name(m));
+        }
+        for m in 0..n_modes {
+            let mut it = sc.find_iter(input);
+            it.set_mode(m);
+            let _ = write!(o, " from{}: {} |", m, real::fmt_peek(&it.peek_n(4)));
+            for _ in 0..input.len() + 2 {
+                match it.next() {
+                    Some(t) => {
+                        let _ = write!(o, " {}@{}", real::fmt_tok(&t), it.current_mode());
+                    }
+                    None => break,
+                }
+            }
+        }
+        o
+    })) {
+        Ok(s) => s,
+        Err(_) => "panic".to_string(),
+    }
+}
+
 fn tokens_of(sc: &scnr::Scanner, input: &str) -> String {
     match catch_unwind(AssertUnwindSafe(|| sc.find_iter(input).take(input.len() + 2).map(|m| real::fmt_tok(&m)).collect::<Vec<_>>().join(" "))) {
         Ok(s) => s,
@@ -1180,7 +1675,33 @@ fn tokens_of(sc: &scnr::Scanner, input: &str) -> String {
 fn case_c13(seed: u64, idx: usize, cache: &TableCache, out: &mut String, st: &mut Stats) {
     let mut r = Rng::derive(seed, idx as u64);
     let pc = ProgCfg { max_modes: 2, max_patterns: 4, lookahead: 30, nullable: false, transitions: true, big_tids: true };
-    let base = cfggen::gen_program(&mut r, &pc);
+    let mut base = cfggen::gen_program(&mut r, &pc);
+    // twin modes: a second (or third) mode with the patterns of mode 0, differing in one lookahead
+    // (present/absent, polarity) only
+    let mut r8 = Rng::derive(seed ^ 0x0c13_7117, idx as u64);
+    if r8.chance(30) {
+        let mut twin = base[0].clone();
+        twin.name = format!("{}T", twin.name);
+        let k = r8.below(twin.patterns.len());
+        twin.patterns[k].lookahead = match &twin.patterns[k].lookahead {
+            Some((pos, la)) if r8.chance(50) => Some((!*pos, la.clone())),
+            Some(_) => None,
+            None => Some((r8.chance(50), r8.pick(&["a", "b", "[a-c]"]).to_string())),
+        };
+        base.push(twin);
+        st.count("twin_modes_differing_in_a_lookahead", 1);
+    }
+    // a fifth of the cases: transition tables as the deserializer accepts them (unsorted); all
+    // configurations of the case are then read through serde
+    let via_serde = r8.chance(20);
+    if via_serde {
+        for m in base.iter_mut() {
+            if m.transitions.len() >= 2 {
+                m.transitions.reverse();
+            }
+        }
+        st.count("configurations_read_through_serde_with_unsorted_transitions", 1);
+    }
     let other = cfggen::gen_program(&mut r, &pc);
     let mut cfgs: Vec<Vec<ModeSpec>> = vec![base.clone(), other];
     for _ in 0..4 {
@@ -1205,7 +1726,14 @@ fn case_c13(seed: u64, idx: usize, cache: &TableCache, out: &mut String, st: &mu
         }]);
     }
     // configuration ids by structural equality of the real mode lists
-    let real_modes: Vec<Vec<scnr::ScannerMode>> = cfgs.iter().map(|c| cfggen::to_modes(c)).collect();
+    let real_modes: Vec<Vec<scnr::ScannerMode>> = if via_serde {
+        match cfgs.iter().map(|c| cfggen::to_modes_json(c)).collect::<Option<Vec<_>>>() {
+            Some(v) => v,
+            None => return,
+        }
+    } else {
+        cfgs.iter().map(|c| cfggen::to_modes(c)).collect()
+    };
     let mut canon: Vec<usize> = Vec::new();
     for i in 0..cfgs.len() {
         let mut id = i;
@@ -1306,7 +1834,8 @@ fn case_c13(seed: u64, idx: usize, cache: &TableCache, out: &mut String, st: &mu
                     Some(u) => {
                         let mut bad = None;
                         for inp in &inputs {
-                            let (a, b) = (tokens_of(&sc, inp), tokens_of(u, inp));
+                            let nm = real_modes[*ci].len();
+                            let (a, b) = (behaviour_of(&sc, inp, nm), behaviour_of(u, inp, nm));
                             if a != b {
                                 bad = Some(format!("cached scanner of configuration {} yields [{}] but the uncached one [{}] on {:?}", ci, a, b, inp));
                                 break;
@@ -1509,6 +2038,165 @@ expect oracle", stuck, n_threads);
     done == n_threads
 }
 
+/// C14: many concurrent scans of one shared scanner and many concurrent builds (hits through
+/// `add_patterns`, misses, failing builds), every result compared with the sequential one; a
+/// watchdog reports missing progress as a deadlock.
+fn c14_hammer(seed: u64, round: usize, out: &mut String, st: &mut Stats) -> bool {
+    use std::sync::atomic::{AtomicUsize, Ordering};
+    use std::sync::Arc;
+    let idx = 5_000_000 + round;
+    st.cases += 1;
+    let _ = writeln!(out, "case {}\nexpect case {}\n# concurrent scans and builds, round {}", idx, idx, round);
+    // --- scans of one shared scanner
+    let modes = vec![scnr::ScannerMode::new(
+        "H",
+        vec![
+            scnr::Pattern::new("[a-c]+".to_string(), 0),
+            scnr::Pattern::new("[0-9]+".to_string(), 1),
+            scnr::Pattern::new("\\s+".to_string(), 2),
+            scnr::Pattern::new("[x-z][a-c0-9]*".to_string(), 3),
+            scnr::Pattern::new("if".to_string(), 4).with_lookahead(scnr::Lookahead::new(true, "\\s".to_string())),
+            scnr::Pattern::new("([α-ω]|[а-я])+".to_string(), 5),
+        ],
+        vec![],
+    )];
+    let shared = Arc::new(ScannerBuilder::new().add_scanner_modes(&modes).build_uncached().unwrap());
+    let mut r = Rng::derive(seed ^ 0x14aa, round as u64);
+    let inputs: Vec<String> = (0..4)
+        .map(|_| (0..60).map(|_| *r.pick(&["abc", "cab", "012", "9", " ", "x1a", "zb", "if ", "ifa", "aa", "77", "\n", "αβγ", "жзи", "ωα", "яа", "é"])).collect::<String>())
+        .collect();
+    let expected: Vec<String> = inputs.iter().map(|i| tokens_of(&shared, i)).collect();
+    let n_threads = 8;
+    let progress = Arc::new(AtomicUsize::new(0));
+    let (tx, rx) = std::sync::mpsc::channel::<(usize, Option<String>)>();
+    for t in 0..n_threads {
+        let (shared, inputs, expected, progress, tx) = (shared.clone(), inputs.clone(), expected.clone(), progress.clone(), tx.clone());
+        std::thread::spawn(move || {
+            let mut bad = None;
+            for k in 0..300 {
+                let i = (k + t) % inputs.len();
+                let got = tokens_of(&shared, &inputs[i]);
+                if got != expected[i] && bad.is_none() {
+                    bad = Some(format!("thread {} scan #{} of the shared scanner on {:?}: [{}] but sequentially [{}]", t, k, inputs[i], got, expected[i]));
+                }
+                progress.fetch_add(1, Ordering::Relaxed);
+            }
+            let _ = tx.send((t, bad));
+        });
+    }
+    drop(tx);
+    let mut ok = true;
+    let mut done = 0;
+    let mut first_bad: Option<String> = None;
+    let deadline = std::time::Instant::now() + std::time::Duration::from_secs(60);
+    while done < n_threads {
+        match rx.recv_timeout(deadline.saturating_duration_since(std::time::Instant::now())) {
+            Ok((_, b)) => {
+                done += 1;
+                if first_bad.is_none() {
+                    first_bad = b;
+                }
+            }
+            Err(_) => break,
+        }
+    }
+    if done < n_threads {
+        let _ = writeln!(out, "oracle FAIL {} of {} threads scanning one shared scanner did not finish within 60 s\nexpect oracle", n_threads - done, n_threads);
+        ok = false;
+    } else if let Some(b) = first_bad {
+        let _ = writeln!(out, "oracle FAIL {}\nexpect oracle", b.replace('\n', "\\n"));
+    } else {
+        out.push_str("oracle ok\nexpect oracle\n");
+    }
+    st.count("concurrent_scans_of_one_scanner", n_threads * 300);
+    // --- builds: cache hits through add_patterns, misses, failing builds
+    let simple: Vec<String> = vec![format!("h{}_{}", seed % 1000, round), "[a-c]+".to_string(), "\\s+".to_string()];
+    let probe = format!("h{}_{} ab ", seed % 1000, round);
+    let exp_simple = match ScannerBuilder::new().add_patterns(simple.clone()).build() {
+        Ok(s) => tokens_of(&s, &probe),
+        Err(_) => "builderr".to_string(),
+    };
+    let progress = Arc::new(AtomicUsize::new(0));
+    let (tx, rx) = std::sync::mpsc::channel::<(usize, Option<String>)>();
+    let total_per_thread = 1500usize;
+    for t in 0..n_threads {
+        let (simple, probe, exp_simple, progress, tx) = (simple.clone(), probe.clone(), exp_simple.clone(), progress.clone(), tx.clone());
+        std::thread::spawn(move || {
+            let mut bad = None;
+            for k in 0..total_per_thread {
+                if t < 5 {
+                    // hit
+                    let got = match ScannerBuilder::new().add_patterns(simple.clone()).build() {
+                        Ok(s) => tokens_of(&s, &probe),
+                        Err(_) => "builderr".to_string(),
+                    };
+                    if got != exp_simple && bad.is_none() {
+                        bad = Some(format!("thread {} build #{} through add_patterns: [{}] but sequentially [{}]", t, k, got, exp_simple));
+                    }
+                } else if k % 3 == 2 {
+                    // failing build
+                    let m = scnr::ScannerMode::new("F", vec![scnr::Pattern::new("(".to_string(), 0)], vec![]);
+                    if ScannerBuilder::new().add_scanner_mode(m).build().is_ok() && bad.is_none() {
+                        bad = Some(format!("thread {} build #{}: the pattern `(` built without error", t, k));
+                    }
+                } else {
+                    // miss: a configuration nobody built before
+                    let w = format!("m{}_{}_{}_{}", seed % 1000, round, t, k);
+                    let m = scnr::ScannerMode::new("M", vec![scnr::Pattern::new(w.clone(), 7)], vec![]);
+                    let got = match ScannerBuilder::new().add_scanner_mode(m).build() {
+                        Ok(s) => tokens_of(&s, &w),
+                        Err(_) => "builderr".to_string(),
+                    };
+                    let want = format!("7:0:{}", w.len());
+                    if got != want && bad.is_none() {
+                        bad = Some(format!("thread {} build #{} of a new configuration: [{}] but sequentially [{}]", t, k, got, want));
+                    }
+                }
+                progress.fetch_add(1, Ordering::Relaxed);
+            }
+            let _ = tx.send((t, bad));
+        });
+    }
+    drop(tx);
+    let mut done = 0;
+    let mut first_bad: Option<String> = None;
+    let mut last = 0usize;
+    let mut last_change = std::time::Instant::now();
+    let mut stalled = false;
+    while done < n_threads {
+        match rx.recv_timeout(std::time::Duration::from_millis(500)) {
+            Ok((_, b)) => {
+                done += 1;
+                if first_bad.is_none() {
+                    first_bad = b;
+                }
+            }
+            Err(std::sync::mpsc::RecvTimeoutError::Timeout) => {
+                let p = progress.load(Ordering::Relaxed);
+                if p != last {
+                    last = p;
+                    last_change = std::time::Instant::now();
+                } else if last_change.elapsed() > std::time::Duration::from_secs(20) {
+                    stalled = true;
+                    break;
+                }
+            }
+            Err(_) => break,
+        }
+    }
+    if stalled || done < n_threads {
+        let _ = writeln!(out, "oracle FAIL concurrent builds made no progress for 20 s after {} of {} builds ({} threads unfinished): deadlock in ScannerBuilder::build\nexpect oracle",
+            progress.load(Ordering::Relaxed), n_threads * total_per_thread, n_threads - done);
+        ok = false;
+    } else if let Some(b) = first_bad {
+        let _ = writeln!(out, "oracle FAIL {}\nexpect oracle", b);
+    } else {
+        out.push_str("oracle ok\nexpect oracle\n");
+    }
+    st.count("concurrent_builds", n_threads * total_per_thread);
+    ok
+}
+
 /// C15: Ok/Err kind of the real build against the classification model.
 fn case_c15(seed: u64, idx: usize, out: &mut String, st: &mut Stats) {
     let mut r = Rng::derive(seed, idx as u64);
@@ -1608,6 +2296,34 @@ fn case_c16(seed: u64, idx: usize, cache: &TableCache, out: &mut String, st: &mu
             }
         }
     }
+    // token types beyond 2^53 (not exactly representable as f64) and near usize::MAX; patterns whose
+    // text contains `(?=` / `(?!` inside a bracketed class and ends with `)`
+    let mut r2 = Rng::derive(seed ^ 0x0c16_5353, idx as u64);
+    if r2.chance(25) {
+        let m = r2.below(spec.len());
+        let k = r2.below(spec[m].patterns.len());
+        let old = spec[m].patterns[k].tid;
+        let big = *r2.pick(&[(1usize << 53) + 1, (1usize << 53) + 3, usize::MAX - 1, usize::MAX - 2, (1usize << 63) + 5, (1usize << 60) + 1]);
+        if !spec[m].patterns.iter().any(|p| p.tid == big) {
+            spec[m].patterns[k].tid = big;
+            for t in spec[m].transitions.iter_mut() {
+                if t.0 == old {
+                    t.0 = big;
+                }
+            }
+            spec[m].transitions.sort();
+            st.count("token_types_beyond_2^53", 1);
+        }
+    }
+    if r2.chance(20) {
+        let m = r2.below(spec.len());
+        let k = r2.below(spec[m].patterns.len());
+        spec[m].patterns[k].pattern = r2.pick(&["(::|[(?=<>])", "(\\d+|[)(?!])", "(\\w+[(?!])", "([(?=]a)", "a([)(?=b]|c)"]).to_string();
+        if r2.chance(50) {
+            spec[m].patterns[k].lookahead = None;
+        }
+        st.count("patterns_with_look_around_characters_in_a_class", 1);
+    }
     st.cases += 1;
     let modes = cfggen::to_modes(&spec);
     let _ = writeln!(out, "case {}\nexpect case {}\n# {}", idx, idx, describe(&spec).replace('\n', "\\n"));
@@ -1683,8 +2399,8 @@ fn case_c16(seed: u64, idx: usize, cache: &TableCache, out: &mut String, st: &mu
     let mut tm = String::new();
     jsonser::ser_value(&serde_json::to_value(m).unwrap(), &mut tm);
     let _ = writeln!(out, "expect json{}", tm);
-    let back: scnr::Match = serde_json::from_str(&serde_json::to_string(&m).unwrap()).unwrap();
-    let _ = writeln!(out, "{}\nexpect oracle", if back == m { "oracle ok" } else { "oracle FAIL Match does not round-trip" });
+    let back = serde_json::from_str::<scnr::Match>(&serde_json::to_string(&m).unwrap());
+    let _ = writeln!(out, "{}\nexpect oracle", if matches!(&back, Ok(b) if *b == m) { "oracle ok".to_string() } else { format!("oracle FAIL Match {:?} does not round-trip: {:?}", m, back).replace('\n', " ") });
     let pos = scnr::Position::new(1 + r.below(50), 1 + r.below(80));
     let mut tp = String::new();
     jsonser::ser_value(&serde_json::to_value(pos).unwrap(), &mut tp);
@@ -1700,8 +2416,8 @@ fn case_c16(seed: u64, idx: usize, cache: &TableCache, out: &mut String, st: &mu
             jsonser::ser_value(&serde_json::to_value(me).unwrap(), &mut te);
             let _ = writeln!(out, "jmatchext {} {} {} {} {} {} {}\nexpect json{}", me.token_type(), me.start(), me.end(),
                 me.start_position().line, me.start_position().column, me.end_position().line, me.end_position().column, te);
-            let back: scnr::MatchExt = serde_json::from_str(&serde_json::to_string(&me).unwrap()).unwrap();
-            let _ = writeln!(out, "{}\nexpect oracle", if back == me { "oracle ok" } else { "oracle FAIL MatchExt does not round-trip" });
+            let back = serde_json::from_str::<scnr::MatchExt>(&serde_json::to_string(&me).unwrap());
+            let _ = writeln!(out, "{}\nexpect oracle", if matches!(&back, Ok(b) if *b == me) { "oracle ok".to_string() } else { format!("oracle FAIL MatchExt {:?} does not round-trip: {:?}", me, back).replace('\n', " ") });
             st.count("matchext_checked", 1);
         }
     }
@@ -1746,10 +2462,29 @@ fn case_c18(seed: u64, idx: usize, cache: &TableCache, out: &mut String, st: &mu
     let mut r = Rng::derive(seed, idx as u64);
     let pc = ProgCfg { max_modes: 3, max_patterns: 4, lookahead: 40, nullable: true, transitions: true, big_tids: false };
     let mut spec = cfggen::gen_program(&mut r, &pc);
+    let mut r3 = Rng::derive(seed ^ 0x18d0_7d07, idx as u64);
+    let prefix: &str = *r3.pick(&["pre", "pre", "v0.9", "x.y.z", "pre fix"]);
+    // two patterns of a mode sharing a token type (one lookahead per token type: one cluster)
+    if r3.chance(25) {
+        let m = r3.below(spec.len());
+        if spec[m].patterns.len() >= 2 {
+            let t = spec[m].patterns[0].tid;
+            let k = 1 + r3.below(spec[m].patterns.len() - 1);
+            spec[m].patterns[k].tid = t;
+            if spec[m].patterns[0].lookahead.is_none() {
+                spec[m].patterns[0].lookahead = Some((r3.chance(50), "a".to_string()));
+            }
+            spec[m].transitions.retain(|x| x.0 != t);
+        }
+    }
     // names and patterns needing escapes in labels
     for (i, m) in spec.iter_mut().enumerate() {
         if r.chance(40) {
             m.name = format!("{}{}", *r.pick(&["IN\"IT", "back\\slash", "sp ace", "ü€", "a{b}", "semi;colon", "q\"\"q"]), i);
+        }
+        // (a separate stream, so that the cases above keep their meaning) names with dots
+        if r3.chance(25) {
+            m.name = format!("{}{}", *r3.pick(&["STR.DQ", "a.b.c", ".hidden", "end."]), i);
         }
         for p in m.patterns.iter_mut() {
             if r.chance(25) {
@@ -1789,11 +2524,11 @@ fn case_c18(seed: u64, idx: usize, cache: &TableCache, out: &mut String, st: &mu
                 let _ = writeln!(junk, "  old{} -> old{} [label=\"9{}\"];", i, i + 1, i);
             }
             junk.push_str("}\n");
-            let _ = std::fs::write(dir.join(format!("pre_{}.dot", m.name)), junk);
+            let _ = std::fs::write(dir.join(format!("{}_{}.dot", prefix, m.name)), junk);
         }
         st.count("files_existed_before", 1);
     }
-    let res = catch_unwind(AssertUnwindSafe(|| scanner.generate_compiled_automata_as_dot("pre", &dir)));
+    let res = catch_unwind(AssertUnwindSafe(|| scanner.generate_compiled_automata_as_dot(prefix, &dir)));
     match res {
         Err(_) => out.push_str("oracle FAIL generate_compiled_automata_as_dot panicked on a writable folder\nexpect oracle\n"),
         Ok(Err(e)) => {
@@ -1803,7 +2538,7 @@ fn case_c18(seed: u64, idx: usize, cache: &TableCache, out: &mut String, st: &mu
             // one file per mode, named from the prefix and the mode name
             let mut names: Vec<String> = std::fs::read_dir(&dir).unwrap().flatten().map(|e| e.file_name().to_string_lossy().to_string()).collect();
             names.sort();
-            let mut want: Vec<String> = spec.iter().map(|m| format!("pre_{}.dot", m.name)).collect();
+            let mut want: Vec<String> = spec.iter().map(|m| format!("{}_{}.dot", prefix, m.name)).collect();
             want.sort();
             want.dedup();
             if names != want {
@@ -1816,7 +2551,7 @@ fn case_c18(seed: u64, idx: usize, cache: &TableCache, out: &mut String, st: &mu
                 if spec.iter().skip(m + 1).any(|o| o.name == mode.name) {
                     continue;
                 }
-                let path = dir.join(format!("pre_{}.dot", mode.name));
+                let path = dir.join(format!("{}_{}.dot", prefix, mode.name));
                 let text = std::fs::read_to_string(&path).unwrap_or_default();
                 let _ = writeln!(out, "dot {}", m);
                 match dotparse::parse(&text) {
@@ -2053,7 +2788,10 @@ fn c17(seed: u64, n: usize, cache: &TableCache, rcache: &RefCache, out: &mut Str
         c17_case(idx, &rep_spec(big), &rep_inputs(big, &[big, big - 1, big - 65536, big + 1]), false, false, 70000, cache, rcache, out, st);
         idx += 1;
         let (ks, words) = keyword_spec(11500, 6, seed);
-        c17_case(idx, &ks, &keyword_inputs(&words, 11500, seed), false, false, 400000, cache, rcache, out, st);
+        // (the minimizer pair of this automaton is not explored: with 27 alphabet representatives
+        // it takes hours; the family is judged by the closed-form token streams and by the
+        // exhaustive probe of the many-token-types case below)
+        c17_case(idx, &ks, &keyword_inputs(&words, 11500, seed), false, false, 0, cache, rcache, out, st);
         idx += 1;
         st.count("large_builds", 2);
         if n >= 1000 {
@@ -2141,6 +2879,20 @@ fn c17_many_token_types(idx: usize, count: usize, seed: u64, out: &mut String, s
     }
 }
 
+/// A logger that discards everything (installed for C14 at level Debug: the arguments of the
+/// crate's `debug!`/`trace!` calls are then evaluated).
+struct Discard;
+impl log::Log for Discard {
+    fn enabled(&self, _: &log::Metadata) -> bool {
+        true
+    }
+    fn log(&self, record: &log::Record) {
+        // format the message (as a real backend would) and drop it
+        let _ = format!("{}", record.args());
+    }
+    fn flush(&self) {}
+}
+
 fn main() {
     // silence panic messages of caught panics
     std::panic::set_hook(Box::new(|_| {}));
@@ -2178,10 +2930,17 @@ fn main() {
         chunks.push((o, stt));
     }
     if args.suite == "C14" {
+        static DISCARD: Discard = Discard;
+        let _ = log::set_logger(&DISCARD);
+        log::set_max_level(log::LevelFilter::Debug);
         let mut o = String::new();
         let mut stt = Stats::default();
         let mut all_done = true;
         for round in 0..n {
+            if round < 2 && !c14_hammer(args.seed, round, &mut o, &mut stt) {
+                all_done = false;
+                break;
+            }
             if !c14_round(args.seed, round, &cache, &mut o, &mut stt) {
                 all_done = false;
                 break;
@@ -2274,6 +3033,12 @@ fn main() {
     for (o, s) in chunks {
         all.push_str(&o);
         stats.merge(s);
+    }
+    {
+        let panics = proto::CLASS_PANICS.lock().unwrap();
+        if let Some((id, cp)) = panics.first() {
+            let _ = writeln!(all, "case 9999999\nexpect case 9999999\noracle FAIL the match function of a character class (id {} in its scanner) panicked on code point U+{:04X} ({} panics in this run)\nexpect oracle", id, cp, panics.len());
+        }
     }
     std::fs::create_dir_all(&args.out).unwrap();
     std::fs::write(format!("{}/ops.in", args.out), all).unwrap();
